@@ -251,7 +251,7 @@ pub fn random_batch() -> BoxedStrategy<KsBatch> {
 }
 
 pub fn run(run: &mut Run) {
-    run.rule = "enumerated: every line sequence of length 0..k (k=4 quick, 5 thorough) over per-configuration alphabets (ordered/equal/prefix-related/indented/blank/numeric-looking and zero-padded lines) x 6 direction spellings x 13 (pattern, format) configurations (one over numbers a unit in the last place apart) (one with a `value` group that takes part in only one branch of an alternation) (the `value` group in both spellings, `(?P<value>…)` and `(?<value>…)`) (two of them with patterns that can match the empty string, so that matching lines with an empty key occur), batched into one file per 400 blocks and run through the real CLI; random: blocks of 6..120 lines (sorted then perturbed by 0..3 swaps; Unicode words; nested block tag lines as keys; numeric with/without pattern). Non-trivial block = at least 2 keys and (an equal or prefix-related adjacent pair, or a skipped line); distinct by (batch, block).".into();
+    run.rule = "every rendered file spells `name=value` in one of three ways (`=`, ` = `, ` =`), drawn from its first block. enumerated: every line sequence of length 0..k (k=4 quick, 5 thorough) over per-configuration alphabets (ordered/equal/prefix-related/indented/blank/numeric-looking and zero-padded lines) x 6 direction spellings x 13 (pattern, format) configurations (one over numbers a unit in the last place apart) (one with a `value` group that takes part in only one branch of an alternation) (the `value` group in both spellings, `(?P<value>…)` and `(?<value>…)`) (two of them with patterns that can match the empty string, so that matching lines with an empty key occur), batched into one file per 400 blocks and run through the real CLI; random: blocks of 6..120 lines (sorted then perturbed by 0..3 swaps; Unicode words; nested block tag lines as keys; numeric with/without pattern). Non-trivial block = at least 2 keys and (an equal or prefix-related adjacent pair, or a skipped line); distinct by (batch, block).".into();
     run.assumptions = vec![
         "content lines are shell/ruby words, which tree-sitter parses without touching the tag comments (block discovery itself is C03)".into(),
         "numeric keys are plain finite decimals; regexes come from a fixed family with hand-written extractors".into(),
